@@ -826,9 +826,12 @@ def dump_graph(ctx, tlc, configs, budget, atomic, name, r=None):
     if r is None:
         r = tlc(name, configs, cfg(budget, atomic, ["TypeOK"], [], emit=True), workers=1)
     edges = r.json_lines("E")
-    if len(edges) != r.generated - len(configs):
+    # every generated successor is printed once (again when TLC re-evaluates the constraint for liveness checking)
+    if len(edges) < r.generated - len(configs):
         ctx.machinery("edge dump incomplete: %d edges printed, TLC generated %d states" % (len(edges), r.generated))
     graph = Graph(edges)
+    if len(graph.state) != r.distinct:
+        ctx.machinery("edge dump incomplete: %d states in the dump, TLC found %d distinct states" % (len(graph.state), r.distinct))
     if len(graph.roots) != len(configs):
         ctx.machinery("expected %d initial states in the dump, found %d" % (len(configs), len(graph.roots)))
     return graph
